@@ -222,3 +222,10 @@ Proof.
   split; [vm_compute; reflexivity|].
   split; vm_compute; discriminate.
 Qed.
+
+(* 'UTC' / 'GMT' without an offset are fixed zones at offset 0, whatever posix_offset is
+   (TypeError before fix edf5097 in /repo) *)
+Lemma gmt_utc_bare_lemma :
+  forallb (fun name => fixed_zone_is (tzstr_init name false) name 0 &&
+                       fixed_zone_is (tzstr_init name true) name 0) [GMT; UTC] = true.
+Proof. vm_compute. reflexivity. Qed.
